@@ -56,6 +56,8 @@ PROPS = {
             J("gf2p16", "C09_exported_mul", bound="every even length 0..70 bytes, symbolic constant, contents and SSSE3 flag"),
             J("gf2p16", "C09_exported_muladd", bound="every even length 0..70 bytes"),
             J("gf2p16", "C09_platformLE", bound="0..19 words through the unsafe []T<->[]byte views"),
+            J("gf2p16", "C09_inplace", bound="MulByteSliceLE(c, buf, buf): every even length 0..70 bytes, symbolic constant, contents and SSSE3 flag"),
+            J("gf2p16", "C09_inplace_row", bound="mulSlice(c, row, row) as called by Matrix.scaleRow: 0..35 elements"),
             J("gf2p16", "C09_asm_replay", kind="asmsym", bound="the four production kernels of slice_amd64.s as assembled by go tool asm: every length allowed by the callers (scalar: even, >= 2; SSSE3: >= 32; < 2^62), every constant, every content, symbolic base addresses, in != out and in == out; loops cut by induction on the iteration number"),
             J("gf2p16", "C09_dispatch_mul", tier="thorough", tag="@z3-new", args=["-solver", "z3-new"], bound="same harness decided by z3 5.1.0 (cross-solver check)"),
         ],
@@ -69,6 +71,7 @@ PROPS = {
             J("gf2p16", "C11_rowreduce_01", bound="every 0/1 matrix of dimension 1..2 with a fully symbolic n x k right-hand side, k 1..3", must_reach=["nonsingular"]),
             J("gf2p16", "C11_rowreduce_01_n3", tier="thorough", bound="every 0/1 matrix of dimension 1..3 with symbolic right-hand side"),
             J("gf2p16", "C11_rowreduce_concrete", bound="10 concrete structured matrices (swaps at every pivot, non-unit pivots, rank deficient) x fully symbolic n x k right-hand side, k 1..5 (narrower, equal, wider)", must_reach=["singular", "nonsingular"]),
+            J("gf2p16", "C09_inplace_row", bound="the in-place row kernel contract scaleRow relies on: mulSlice(c, row, row), 0..35 elements"),
             J("gf2p16", "C11_times", bound="2x2 by 2x2 fully symbolic"),
         ],
     ),
@@ -180,6 +183,8 @@ PROPS = {
         explanation="write log of the symbolic file system during Repair / Verify / Create compared with the originals",
         assumptions=["MD5 injective model; symFS below fileIO", "PAR1: reedsolomon contract stub as in C04"],
         jobs=[
+            J("par2", "C02_default_io", bound="the real defaultFileIO.WriteFile / ReadFile (ioutil -> os.WriteFile real SSA -> modelled OpenFile/Write/Close with POSIX flag semantics) on a path that is missing or holds 0..4 symbolic bytes, new contents 0..3 symbolic bytes, one bystander file"),
+            J("par1", "C02_par1_default_io", bound="same, PAR1's defaultFileIO"),
             J("par2", "C02_repair_arbitrary", bound="1 file of 4/5/8 bytes, 1 block, arbitrary current content of length 0..len+1, a bystander file present, double-check on/off"),
             J("par2", "C02_garbage_parity", bound="recovery block replaced by arbitrary bytes with a recomputed packet hash; file intact / missing / one slice overwritten"),
             J("par1", "C04_roundtrip_unicode", bound="PAR1: write log of Repair for every damage subset of a 2-file, 2-volume set (the C04 harness)"),
